@@ -1,6 +1,6 @@
 (* C09/Model.v — re-exports the two executable models and defines the
    [run_*] functions the correspondence cases call.  Definitions only. *)
-From MV Require Export Base.Prelude Base.SymHash C09.StmTree C09.Mmr.
+From MV Require Export Base.Prelude Base.SymHash C09.StmTree C09.Mmr C09.RawLeaf.
 Open Scope N_scope.
 
 (* ------------------------------------------------------------------ STM side
@@ -137,11 +137,19 @@ Definition forest_map (ranges : list (list N * list (list N))) : forest :=
   let subs := map (fun r => mk_tinfo (payloads (snd r))) ranges in
   mk_tinfo (map (fun rs => Mrg (BLit (fst (fst rs))) (ti_root (snd rs))) (combine ranges subs)) :: subs.
 
-(* MKProof::verify and MKProof::contains(&[x]) for each query *)
+(* MKProof::verify and MKProof::contains(&[x]) for each query, byte-faithful (RawLeaf.v:
+   raw sibling leaves are hashed as their concatenation) *)
 Definition run_mk (L : list (list N)) (p : pspec) (xs : list mspec) : obs :=
   let f := forest_single L in
   let pr := pden f p in
-  OL [OB (mk_verify pr); OL (map (fun x => OB (mk_contains pr [mden f x])) xs)].
+  OL [OB (mk_verify_b pr); OL (map (fun x => OB (mk_contains_b pr [mden f x])) xs)].
+
+(* the same, then `contains` of several leaves at once: contains(&qs) for every qs of [xss] *)
+Definition run_mk_multi (L : list (list N)) (p : pspec) (xs : list mspec) (xss : list (list mspec)) : obs :=
+  let f := forest_single L in
+  let pr := pden f p in
+  OL [OB (mk_verify_b pr); OL (map (fun x => OB (mk_contains_b pr [mden f x])) xs);
+      OL (map (fun qs => OB (mk_contains_b pr (map (mden f) qs))) xss)].
 
 (* canonical name of a generated proof item: a store position, else a bagging *)
 Definition canon_item (ti : tinfo) (v : bt) : obs :=
@@ -162,7 +170,7 @@ Definition run_mk_gen (L : list (list N)) (sel : list N) : obs :=
   | Ok p =>
       let ti := mk_tinfo xs in
       OL [OZ 0; OL (map (fun e => ON (fst e)) (p_leaves p)); ON (p_size p);
-          OL (map (canon_item ti) (p_items p)); OB (mk_verify p)]
+          OL (map (canon_item ti) (p_items p)); OB (mk_verify_b p)]
   | _ => OL [OZ 1]
   end.
 
@@ -170,4 +178,4 @@ Definition run_mk_gen (L : list (list N)) (sel : list N) : obs :=
 Definition run_map (ranges : list (list N * list (list N))) (p : mpspec) (xs : list mspec) : obs :=
   let f := forest_map ranges in
   let pr := mpden f p in
-  OL [OB (map_verify pr); OL (map (fun x => OB (map_contains pr (mden f x))) xs)].
+  OL [OB (map_verify_b pr); OL (map (fun x => OB (map_contains_b pr (mden f x))) xs)].
